@@ -146,6 +146,14 @@ func (S *Sorts) structSort(t types.Type) string {
 			return "Opaque"
 		}
 	}
+	// a struct with unexported fields of a foreign package (type Date time.Time):
+	// the same opaque value as the foreign type it was converted from
+	for i := 0; i < st.NumFields(); i++ {
+		if f := st.Field(i); !f.Exported() && f.Pkg() != nil && !S.P.Module[f.Pkg()] {
+			S.dtOf[key] = "Opaque"
+			return "Opaque"
+		}
+	}
 	var name string
 	if n, ok := t.(*types.Named); ok {
 		name = "S_" + mangle(shortPkg(n.Obj().Pkg().Path())+"_"+n.Obj().Name())
